@@ -10,7 +10,7 @@
    byte-exact generator correspondence and judged on the reference machine. *)
 From Coq Require Import ZArith List String Bool.
 From Gigue Require Import Types Bits Isa Enc GenTables Builder BuilderTies Samplers Generator Machine MachineLemmas
-  SplitProofs FragProofs GenLemmas ImageSem CtorSpec C12Defs C12Proofs GenWF GenWFProps SliceLemmas FloatSign GenWF2 BodyExec BodyBridge GenWF5 FrameExec CodeMem SwitchExec GenWF6 GenWF4 GenWF7 GenWF8 GenWF9 Walk CallFrame MethodContract CallFrameRimi MethodContractRimi SaveRestore TrampExec TrampsInv TrampStubs WholeImage Loader Witness LoaderWitness.
+  SplitProofs FragProofs GenLemmas ImageSem CtorSpec C12Defs C12Proofs GenWF GenWFProps SliceLemmas FloatSign GenWF2 BodyExec BodyBridge GenWF5 FrameExec CodeMem SwitchExec GenWF6 GenWF4 GenWF7 GenWF8 GenWF9 Walk CallFrame MethodContract CallFrameRimi MethodContractRimi SaveRestore TrampExec TrampsInv TrampStubs WholeImage Loader Witness LoaderWitness WholeImageRimi LoaderRimi LoaderWitnessRimi.
 Import ListNotations.
 Open Scope Z_scope.
 
@@ -212,7 +212,7 @@ Theorem C01_plain_image_from_files : forall c script img,
       run (gv c) L (image_steps c img eh) s0 = (Next s', image_steps c img eh) /\ pc s' = halt_at L /\
       (forall r, 0 <= r -> wr c r = false -> ~ clob c r -> rget s' r = rget s0 r) /\
       mem_frame c L s0 s' (stk_hi L - Ntot c img) (stk_hi L) /\ dom s' = 0 /\ cfi s' = [].
-Proof. exact plain_image_from_files. Qed.
+Proof. intros c script img Hs Hp H6 L s0 HI. exact (plain_image_from_files c script img Hs Hp H6 L s0 _ HI eq_refl). Qed.
 
 (* non-vacuity, per variant: a concrete state (the witness image stored word by word
    into an empty memory) meets every hypothesis; the images have PICs and call-making methods *)
@@ -246,6 +246,39 @@ Theorem C01_every_rimi_method_returns_partial : forall c script img,
             (steps_method (im_methods img) (max_depth (im_methods img)) id) m.
 Proof. exact every_rimi_method_returns. Qed.
 
+(* PROVED: PROPERTY C01 OVER THE EMITTED FILES FOR THE RIMI SHADOW-STACK VARIANT
+   (LoaderRimi.rimiss_image_from_files; WholeImageRimi.rimiss_image_returns): same
+   statement as C01_plain_image_from_files with, in addition, the shadow stack:
+   `Init` places t3 at the top of the emitted shadow-stack image; for call chains
+   within its capacity (SSmax img = 8 x the largest number of call-making methods
+   live at once, from the call DAG, <= |ss.bin|) the image runs from the
+   interpreter entry to the halt address without any fault in exactly
+   rimage_steps steps; the interpreter's return points go through the trampoline
+   pair (main stack), the return addresses of JIT methods only through the shadow
+   stack; t3 is back at its entry value; memory changes only in the data image,
+   the main-stack window and the shadow window [ss_hi - SSmax, ss_hi). *)
+Theorem C01_rimiss_image_from_files : forall c script img,
+  successful c script img -> c_variant c = GRimiSS -> c_data_reg c <> 6 ->
+  forall L s0, Init c img (rNtot c img) L s0 -> code_lo L = int_start_al c ->
+    code_hi L - code_lo L < 2147483648 - 2048 -> pics_encodable img ->
+    SSmax img <= zlen (im_ss img) ->
+    (forall r o, In (r, o) int_slots -> 0 <= rget s0 r < W64) ->
+    exists s' eh, map fst eh = im_elements img /\ Forall (fun x => rhit_ok (fst x) (snd x)) eh /\
+      run (gv c) L (rimage_steps img eh) s0 = (Next s', rimage_steps img eh) /\ pc s' = halt_at L /\
+      (forall r, 0 <= r -> wr c r = false -> ~ rclob c r -> rget s' r = rget s0 r) /\
+      rget s' 28 = ss_hi L /\
+      rmem_frame c L s0 s' (stk_hi L - rNtot c img) (stk_hi L) (ss_hi L - SSmax img) (ss_hi L) /\ dom s' = 0 /\ cfi s' = [].
+Proof. exact rimiss_image_from_files. Qed.
+
+Theorem C01_rimiss_image_from_files_nonvacuous :
+  (exists s' n, run (gv wcfg_rimiss) wL_r n ws0_r = (Next s', n) /\ pc s' = halt_at wL_r /\ rget s' 28 = ss_hi wL_r /\ dom s' = 0 /\ cfi s' = []) /\
+  Init wcfg_rimiss wimg_r (rNtot wcfg_rimiss wimg_r) wL_r ws0_r /\
+  existsb (fun e => match e with EPic _ => true | _ => false end) (im_elements wimg_r) = true /\
+  existsb (fun m => negb (m_is_leaf m)) (im_methods wimg_r) = true /\ 0 < SSmax wimg_r.
+Proof. split; [exact rimiss_image_from_files_nonvacuous|]. split; [exact ws0_init_r|exact wimg_shape_r]. Qed.
+
+Print Assumptions C01_rimiss_image_from_files.
+Print Assumptions C01_rimiss_image_from_files_nonvacuous.
 Print Assumptions C01_every_rimi_method_returns_partial.
 Print Assumptions C01_plain_image_returns.
 Print Assumptions C01_plain_image_from_files.
